@@ -592,3 +592,62 @@ def run_b15(chk, repo):
                       'computed after old_parameters/old_random_variables were replaced by the new ones (always False)',
                       line=defs[0].line if defs else us.node.lineno,
                       witness='remove an unused eta: ETA(n) in unchanged statements is stale')
+
+
+def run_b16(chk, repo):
+    """every (ADVAN, TRANS) pair that new_advan_trans can select exists in PREDPP"""
+    import json
+    from sa.report import VERIF
+    from rules.C02 import eval_cond
+    B16 = chk.rule('B16', 'new_advan_trans selects only (ADVAN, TRANS) combinations that PREDPP has', floor=20)
+    spec = json.loads((VERIF / 'specs/predpp.json').read_text())
+    valid = {a: {k for k in v if k.startswith('TRANS')} for a, v in spec.items() if a.startswith('ADVAN')}
+    um = repo.module(f'{NM}.update')
+    f = um.functions.get('new_advan_trans')
+    if f is None:
+        raise AnalysisError('new_advan_trans not found')
+
+    def last_assign(stmts, env, var, found):
+        for s_ in stmts:
+            if isinstance(s_, ast.If):
+                v = eval_cond(s_.test, env)
+                if v is True:
+                    last_assign(s_.body, env, var, found)
+                elif v is False:
+                    last_assign(s_.orelse, env, var, found)
+                else:
+                    # undecidable test (e.g. nonlin, oldtrans is None): explore both, results marked
+                    f1, f2 = dict(found), dict(found)
+                    last_assign(s_.body, env, var, f1)
+                    last_assign(s_.orelse, env, var, f2)
+                    vals = {f1.get(var), f2.get(var)}
+                    found[var] = vals.pop() if len(vals) == 1 else ('?', f1.get(var), f2.get(var))
+                continue
+            if isinstance(s_, ast.Assign) and unparse(s_.targets[0]) == var:
+                if isinstance(s_.value, ast.Constant):
+                    found[var] = s_.value.value
+                elif isinstance(s_.value, ast.Name) and s_.value.id in env:
+                    found[var] = env[s_.value.id]
+                else:
+                    found[var] = ('expr', unparse(s_.value))
+    n = 0
+    for advan in sorted(valid, key=lambda a: int(a[5:])):
+        for oldtrans in ('TRANS1', 'TRANS2', 'TRANS3', 'TRANS4', 'TRANS5', 'TRANS6'):
+            env = {'advan': advan, 'oldtrans': oldtrans}
+            found = {}
+            # only the part after the ADVAN choice: statements that assign `trans`
+            body = [s_ for s_ in f.node.body if any(isinstance(a, ast.Assign) and unparse(a.targets[0]) == 'trans'
+                                                     for a in ast.walk(s_))]
+            last_assign(body, env, 'trans', found)
+            t = found.get('trans')
+            cands = [t] if isinstance(t, str) or t is None else [x for x in t[1:] if isinstance(x, str)]
+            n += 1
+            chk.instance(B16, f'{advan}, old {oldtrans} -> {t}')
+            for c in cands:
+                if c is not None and c not in valid[advan]:
+                    chk.violation(B16, um.rel, 'new_advan_trans', f'{advan} with old {oldtrans} -> {c}',
+                                  f'PREDPP has no {c} for {advan} (valid: {sorted(valid[advan])})', line=f.node.lineno,
+                                  witness='a TRANS3 model (CL, V, Q, VSS) that gets a second peripheral compartment: '
+                                          '$SUBROUTINE ADVAN11 TRANS3 with none of its rate constants defined')
+    if n < 20:
+        raise AnalysisError('B16: table of new_advan_trans not evaluated')
